@@ -199,6 +199,17 @@ def e2e_cases(rng, ncases, per):
             lines.append("get 0 1 %s" % rng.choice(["g", "r"]))
             expect.append("val %d:%s" % (n, hashlib.sha256(content_bytes(v, n)).hexdigest()[:12]))
             descr.append(lines[-2] + " ; " + lines[-1])
+            if j % 3 == 2:
+                # a store that fails (empty key): Write or Close must report an error of the class ErrEmptyKey and the
+                # key written before keeps its value
+                v += 1
+                bad_parts = [rng.choice(E2E_SIZES) for _ in range(rng.choice([0, 1, 2, 3]))]
+                lines.append("set 0 0 %d %d c%s" % (v, sum(bad_parts), ",".join(map(str, bad_parts))))
+                expect.append("err EmptyKey")
+                descr.append(lines[-1])
+                lines.append("get 0 1 g")
+                expect.append(expect[-2])
+                descr.append(lines[-2] + " ; " + lines[-1])
         lines.append("end")
         expect.append("end")
         descr.append(None)
